@@ -72,10 +72,11 @@ namespace detail
 		template<typename genType>
 		GLM_FUNC_QUALIFIER static genType call(genType Source, genType Multiple)
 		{
-			if(Source > genType(0))
-				return Source + (Multiple - std::fmod(Source, Multiple));
+			genType const Rem = std::fmod(Source, Multiple);
+			if(Rem > genType(0))
+				return Source + (Multiple - Rem);
 			else
-				return Source + std::fmod(-Source, Multiple);
+				return Source - Rem;
 		}
 	};
 
@@ -85,8 +86,8 @@ namespace detail
 		template<typename genType>
 		GLM_FUNC_QUALIFIER static genType call(genType Source, genType Multiple)
 		{
-			genType Tmp = Source - genType(1);
-			return Tmp + (Multiple - (Tmp % Multiple));
+			genType const Rem = Source % Multiple;
+			return Rem == genType(0) ? Source : Source + (Multiple - Rem);
 		}
 	};
 
@@ -116,10 +117,11 @@ namespace detail
 		template<typename genType>
 		GLM_FUNC_QUALIFIER static genType call(genType Source, genType Multiple)
 		{
-			if(Source >= genType(0))
-				return Source - std::fmod(Source, Multiple);
+			genType const Rem = std::fmod(Source, Multiple);
+			if(Rem < genType(0))
+				return Source - Rem - Multiple;
 			else
-				return Source - std::fmod(Source, Multiple) - Multiple;
+				return Source - Rem;
 		}
 	};
 
